@@ -3,6 +3,16 @@ mod gen;
 mod imp;
 mod oracle;
 mod refs;
+#[macro_use]
+mod search_c01;
+#[macro_use]
+mod search_sigs;
+#[macro_use]
+mod search_thresh;
+#[macro_use]
+mod search_enc;
+#[macro_use]
+mod search_codec;
 mod search;
 mod tok;
 
